@@ -22,24 +22,44 @@
 (* of ALL digraphs on N nodes (= all graphical pairs), k <= KMax.                   *)
 EXTENDS Generators, Json
 
-CONSTANTS N, Gen, KMin, KMax
+CONSTANTS N, Gen, KMin, KMax,
+          InputPhase    \* TRUE: the witness digraph of the degree pair is chosen row by row
+                        \* by InputRow steps (simulation of N = 5: SUBSET of 20 pairs is too
+                        \* large to enumerate in Init); FALSE: Init enumerates all pairs
 VARIABLES inv, outv, st, pc0, hist
-(* st = [C, tg, i, tried, pc] of Generators!DF*; pc0 in perm | run | returned | raised | emitted *)
+(* st = [C, tg, i, tried, pc] of Generators!DF*;                                      *)
+(* pc0 in input | perm | run | returned | raised | emitted                            *)
 vars == <<inv, outv, st, pc0, hist>>
 
 DPairs == OffDiag(N)
 InSeqOf(E)  == [v \in 1..N |-> Cardinality({e \in E : e[2] = v})]
 OutSeqOf(E) == [v \in 1..N |-> Cardinality({e \in E : e[1] = v})]
-GraphicalPairs == {<<InSeqOf(E), OutSeqOf(E)>> : E \in SUBSET DPairs}
+GraphicalPairs(n) == {<<InSeqOf(E), OutSeqOf(E)>> : E \in SUBSET OffDiag(n)}   \* (parameter: not pre-evaluated)
 
 k   == SeqSum(inv)
 src == StubSeq(N, outv)
 CountIn(t, v) == Cardinality({x \in DOMAIN t : t[x] = v})
 
-Init == /\ \E p \in {q \in GraphicalPairs : SeqSum(q[1]) >= KMin /\ SeqSum(q[1]) <= KMax} :
-             inv = p[1] /\ outv = p[2]
+Init == /\ IF InputPhase
+           THEN inv = [v \in 1..N |-> 0] /\ outv = [v \in 1..N |-> 0] /\ pc0 = "input"
+           ELSE /\ \E p \in {q \in GraphicalPairs(N) : SeqSum(q[1]) >= KMin /\ SeqSum(q[1]) <= KMax} :
+                     inv = p[1] /\ outv = p[2]
+                /\ pc0 = "perm"
         /\ st = DFInit(N, <<>>)
-        /\ pc0 = "perm" /\ hist = <<>>
+        /\ hist = <<>>
+
+(* InputPhase: row st.i of the witness digraph gets the out-neighbours S              *)
+InputRow(S) ==
+  /\ pc0 = "input" /\ st.i <= N /\ st.i \notin S
+  /\ outv' = [outv EXCEPT ![st.i] = Cardinality(S)]
+  /\ inv' = [v \in 1..N |-> IF v \in S THEN inv[v] + 1 ELSE inv[v]]
+  /\ st' = [st EXCEPT !.i = st.i + 1]
+  /\ UNCHANGED <<pc0, hist>>
+InputDone ==
+  /\ pc0 = "input" /\ st.i = N + 1 /\ k >= KMin /\ k <= KMax
+  /\ st' = DFInit(N, <<>>)
+  /\ pc0' = "perm"
+  /\ UNCHANGED <<inv, outv, hist>>
 
 (* reveal the next target of in_inv[perm]                                           *)
 PermStep(v) ==
@@ -93,7 +113,9 @@ PermDoneG ==
   /\ hist' = <<st.tg>>
   /\ UNCHANGED <<inv, outv>>
 
-Next == \/ \E v \in 1..N : PermStep(v)
+Next == \/ \E S \in SUBSET (1..N) : InputRow(S)
+        \/ InputDone
+        \/ \E v \in 1..N : PermStep(v)
         \/ (IF Gen THEN PermDoneG ELSE PermDone)
         \/ Loop
         \/ \E sw \in 1..k : Switch(sw)
@@ -101,11 +123,11 @@ Next == \/ \E v \in 1..N : PermStep(v)
 Spec == Init /\ [][Next]_vars
 
 (* ------------------------------ invariants ---------------------------------- *)
-TypeOK == /\ pc0 \in {"perm", "run", "returned", "raised", "emitted"}
+TypeOK == /\ pc0 \in {"input", "perm", "run", "returned", "raised", "emitted"}
           /\ st.pc \in {"loop", "switch", "done", "stuck"}
-          /\ Len(src) = k
+          /\ pc0 # "input" => Len(src) = k
 (* the targets stay an arrangement of the in-stub multiset                          *)
-TargetsInv == pc0 # "perm" => \A v \in 1..N : CountIn(st.tg, v) = inv[v]
+TargetsInv == pc0 \notin {"input", "perm"} => \A v \in 1..N : CountIn(st.tg, v) = inv[v]
 (* edges 1..i-1 are placed on distinct off-diagonal cells, and C is exactly          *)
 (* identity + those cells                                                           *)
 Placed == {<<src[e], st.tg[e]>> : e \in 1..(st.i - 1)}
